@@ -338,7 +338,10 @@ class HistoryWorld:
         use_default = kr.random() < (0.06 if tier == "quick" else 0.10)
         nclients = 1 if use_default else kr.choice([1, 1, 2, 2, 3])
         clients = [gen_client(wr, "default" if use_default and i == 0 else "gen") for i in range(nclients)]
-        knobs = {"lru": kr.choice([1, 2, 8, 128, None]), "default": use_default}
+        # the live registries may share one on-disk cache folder (cold for the first, warm afterwards); the
+        # pristine registries of the oracle never use it
+        knobs = {"lru": kr.choice([1, 2, 8, 128, None]), "default": use_default,
+                 "cache_folder": (not use_default) and kr.random() < 0.15}
         pg = ProgGen(streams.get("program"), clients)
         size = kr.choice([6, 10, 16, 24, 40, 60]) if not use_default else kr.choice([6, 10, 16])
         sched = streams.get("schedule")
@@ -507,6 +510,12 @@ class _Run:
         self._live_lru = classmethod(functools.lru_cache(maxsize=self.case["knobs"].get("lru", 128))(raw))
         putil.ParserHelper.from_string = self._live_lru
         self._orig_app = pint.application_registry.get()
+        self.cache_dir = None
+        if self.case["knobs"].get("cache_folder"):
+            import os
+            import tempfile
+
+            self.cache_dir = tempfile.mkdtemp(prefix="verif-c13-", dir="/dev/shm" if os.path.isdir("/dev/shm") else None)
         self.infos = [ClientInfo(c) for c in self.case["clients"]]
         self.regs = []
         self.states = []
@@ -523,6 +532,10 @@ class _Run:
     def teardown(self):
         self._putil.ParserHelper.from_string = self._orig_from_string
         self.pint.set_application_registry(self._orig_app)
+        if getattr(self, "cache_dir", None):
+            import shutil
+
+            shutil.rmtree(self.cache_dir, ignore_errors=True)
 
     def num(self, ci):
         T = NUMTYPES[self.case["clients"][ci]["numtype"]]
@@ -534,6 +547,8 @@ class _Run:
         info = self.infos[ci]
         T = NUMTYPES[cl["numtype"]]
         kw = {"non_int_type": T, "case_sensitive": cl["case_sensitive"]}
+        if state is None and getattr(self, "cache_dir", None):
+            kw["cache_folder"] = self.cache_dir
         extra = list(state.defs) if state else []
         try:
             if cl["kind"] == "gen":
